@@ -32,6 +32,7 @@ type GhostLoopVar struct {
 	Type   string
 	Init   Expr
 	Update Expr
+	AtEnd  bool // loop ghost whose update reads the values the iteration leaves behind (back-edge values)
 	Target Expr // ghostret r.$f := e: assignment to a ghost field of an object named at the return
 }
 
@@ -652,8 +653,9 @@ func ParseSpecFile(path string, pkgPath string) (*SpecFile, error) {
 					return nil, fmt.Errorf("%s:%d: bad bound", path, it.line)
 				}
 				ls.Bound = b
-			case "ghost":
-				// loop N ghost name Type := init ; update
+			case "ghost", "ghostend":
+				// loop N ghost name Type := init ; update        (update reads the values at the start of the iteration)
+				// loop N ghostend name Type := init ; update     (update reads the values the iteration leaves behind)
 				n, r4 := firstWord(r3)
 				i := strings.Index(r4, ":=")
 				if i < 0 {
@@ -672,7 +674,7 @@ func ParseSpecFile(path string, pkgPath string) (*SpecFile, error) {
 				if err != nil {
 					return nil, fmt.Errorf("%s:%d: %v", path, it.line, err)
 				}
-				ls.Ghosts = append(ls.Ghosts, GhostLoopVar{Name: n, Type: ty, Init: ini, Update: upd})
+				ls.Ghosts = append(ls.Ghosts, GhostLoopVar{Name: n, Type: ty, Init: ini, Update: upd, AtEnd: k == "ghostend"})
 			default:
 				return nil, fmt.Errorf("%s:%d: unknown loop clause %q", path, it.line, k)
 			}
